@@ -46,6 +46,9 @@ fn dispatch(op: &str, args: &[Sexp]) -> String {
         "lef.wr" => crate::props::lef::op_wr(args),
         "lef.crash" => crate::props::lef::op_crash(args),
         "lef.big" => crate::props::lef::op_big(args),
+        "tproto.export" => crate::props::c19::op_export(args),
+        "tproto.import" => crate::props::c19::op_import(args),
+        "tproto.rt" => crate::props::c19::op_rt(args),
         "tf.apply" => crate::props::c12::op_apply(args),
         "tf.general" => crate::props::c12::op_general(args),
         "raw.flatten" => crate::props::c12::op_flatten(args),
